@@ -22,7 +22,7 @@ PROPS["C14"] = {
              "random envelope type / truncated / random / empty, optional truncation of the whole - fed to all 15 Unmarshal* "
              "functions and compared with a reference decoder written from documentation/envelope_protocol.md; (roundtrip) a "
              "reflectively generated value of each of the 15 envelope types through Marshal*/Unmarshal*; (crc) the same value with "
-             "the optional CRC-32C header and one flipped bit. Server-level units: the same bytes through natsToProtoMessage, after which the decoded message is appended to a commit log and read back the way a subscription reads it (key, value and every header must come back; one case in 41 is an envelope at the limits of the log's message format: header keys of 32766-70000 bytes, 32765-65536 headers, header values up to 1 MiB - what the format cannot hold must be stored verbatim), and (C14e) 1-10 of them published to the NATS subject of a stream on a started server, followed by an AckPolicy-ALL publish, a subscription that must deliver every payload as predicted, and a metadata fetch (one publish envelope in six carries an ack inbox that is not a NATS subject: line breaks, blanks, empty tokens, NUL; one payload in five is a well-formed publish envelope whose header map has entries without the value field, without the key field or empty - legal protobuf that another encoder may write); (C14h) byte strings that do not decode as the respective envelope type handed to the eight handlers of the internal NATS subjects (replication request/response, leader-epoch offsets, propagated operations, server info, partition status, partition notification, Raft join): the handler must return without panicking - a weak guard, since the decoders return a zero value next to the error. "
+             "the optional CRC-32C header and one flipped bit. Server-level units: the same bytes through natsToProtoMessage, after which the decoded message is appended to a commit log and read back the way a subscription reads it (key, value and every header must come back; one case in 41 is an envelope at the limits of the log's message format: header keys of 32766-70000 bytes, 32765-65536 headers, header values up to 1 MiB - what the format cannot hold must be stored verbatim), and (C14e) 1-10 of them published to the NATS subject of a stream on a started server, followed by an AckPolicy-ALL publish, a subscription that must deliver every payload as predicted, and a metadata fetch (one publish envelope in six carries an ack inbox that is not a NATS subject: line breaks, blanks, empty tokens, NUL; the streams have a wildcard subject and one payload in six is a well-formed publish envelope with an ack inbox published to a subject whose last token is not valid UTF-8; one payload in five is a well-formed publish envelope whose header map has entries without the value field, without the key field or empty - legal protobuf that another encoder may write); (C14h) byte strings that do not decode as the respective envelope type handed to the eight handlers of the internal NATS subjects (replication request/response, leader-epoch offsets, propagated operations, server info, partition status, partition notification, Raft join): the handler must return without panicking - a weak guard, since the decoders return a zero value next to the error. "
              "Non-trivial = a bytes case that starts with the correct magic+version and is not a plain valid minimal-header "
              "envelope, or any roundtrip/crc case; distinct = SHA-1 of the case encoding."),
     "assumptions": TRUST + ["protobuf (golang/protobuf + generated gogo code) decoding of a payload is trusted as the reference for payload contents",
